@@ -1,7 +1,7 @@
 (* One entry point for the correspondence check: a case line in, the model's and the spec's canonical
    result lines out.  Extracted to OCaml (ExtrOcamlBasic only) and also evaluated by vm_compute. *)
 From Coq Require Import NArith ZArith List Bool String.
-From KT Require Import Model.Show Model.Ops Model.Rows Model.Pipeline Model.Reader.
+From KT Require Import Model.Show Model.Ops Model.Rows Model.Pipeline Model.Reader Model.Cli.
 Import ListNotations.
 Open Scope N_scope.
 
@@ -17,7 +17,6 @@ Definition parse_table (t : list N) : list (N * N) :=
 
 (* memory limits may be astronomically large (4 GiB): anything above the total input length behaves like
    total + 1, so the limit handed to the model stays a small unary number *)
-Definition total_len (recs : list (list N)) : nat := fold_right (fun r a => (List.length r + a)%nat) 0%nat recs.
 Definition cap_mem (mem : N) (recs : list (list N)) : nat :=
   if mem <=? N.of_nat (total_len recs) then N.to_nat mem else S (total_len recs).
 Definition hex2 (p : list N * list N) : list N * list N := (to_hex (fst p), to_hex (snd p)).
@@ -50,7 +49,10 @@ Definition dispatch_file (toks : list (list N)) : option (list N * list N) :=
         Some (m_ctr (parse_nat k) (flag w) (N.max 1 (parse_dec hdr)) [rs], s_ctr (parse_nat k) (flag w) rs)
       else None
   | [op; sz; threads; mem; container; recs] =>
-      if is "cgrfile" op then
+      if is "cli" op then    (* cli <subcommand> <settings> <container> <recs> <alt recs> *)
+        Some (m_cli sz (parse_settings threads) (parse_hex_list container) (parse_hex_list recs),
+              s_cli sz (parse_settings threads) (parse_hex_list container) (parse_hex_list recs))
+      else if is "cgrfile" op then
         let rs := parse_hex_list recs in Some (m_cgrfile (parse_Z sz) rs, s_cgrfile (parse_Z sz) rs)
       else if is "s2m" op then   (* s2m w m threads container recs *)
         let rs := parse_hex_list recs in Some (m_s2m (parse_nat sz) (parse_nat threads) rs, s_s2m (parse_nat sz) (parse_nat threads) rs)
@@ -69,7 +71,55 @@ Definition parse_recs (t : list N) : list (list N * list N) :=
   if list_eqb t [95] then [] else
   map (fun e => match split_on 58 e with [a; b] => (parse_hex a, parse_hex b) | _ => ([], []) end) (split_on 44 t).
 
-Definition dispatch (line : list N) : list N * list N :=
+(* hist <plant> (<sub> <settings> <container> <recs> <alt>)+ : several runs into one output location; the result
+   files must be those of the last run alone in a fresh location, so model and spec only look at the last run *)
+Definition dispatch_hist (toks : list (list N)) : option (list N * list N) :=
+  match toks with
+  | op :: plant :: rest =>
+      if is "hist" op then
+        match skipn (List.length rest - 5) rest with
+        | [sub; st; container; recs; alt] =>
+            Some (m_cli sub (parse_settings st) (parse_hex_list recs) (parse_hex_list alt),
+                  s_cli sub (parse_settings st) (parse_hex_list recs) (parse_hex_list alt))
+        | _ => None
+        end
+      else None
+  | _ => None
+  end.
+
+(* hooks <inner op ...>: predicted summary of the event log: every index in bounds, mapped writes tile the file,
+   number of mapped writes (rows + header) and of logged unchecked indexings (2 per window for the composition
+   vectors: pos_map and vec; 1 per window for the coverage histogram and for the counter's partition table) *)
+Definition dispatch_hooks (toks : list (list N)) : option (list N * list N) :=
+  match toks with
+  | [h; op; k; norm; hdr; delim; threads; mem; writer; container; wrap; recs] =>
+      if is "hooks" h && is "ofile" op then
+        let rs := parse_hex_list recs in
+        let mapped := is "mmap" writer || (is "auto" writer && flag norm) in
+        let w := if mapped then (List.length rs + (if flag hdr then 1 else 0))%nat else 0%nat in
+        Some (show_hooks w (2 * windows (parse_nat k) rs), show_hooks w (2 * windows_spec (parse_nat k) rs))
+      else if is "hooks" h && is "cov" op then
+        (* hooks cov k bs bc norm delim threads flush container recs altrecs (positions as in dispatch_file) *)
+        let rs := parse_hex_list wrap in let ars := parse_hex_list recs in
+        Some (show_hooks 0 (windows (parse_nat k) rs + windows (parse_nat k) ars),
+              show_hooks 0 (windows_spec (parse_nat k) rs + windows_spec (parse_nat k) ars))
+      else None
+  | [h; op; k; threads; memf; acgt; container; recs] =>
+      if is "hooks" h && is "ctr" op then
+        let rs := parse_hex_list recs in
+        Some (show_hooks 0 (windows (parse_nat k) rs), show_hooks 0 (windows_spec (parse_nat k) rs))
+      else None
+  | [h; op; k; sz; norm; threads; mem; container; recs] =>
+      if is "hooks" h && is "ocgrfile" op then
+        let rs := parse_hex_list recs in
+        Some (show_hooks 0 (2 * windows (parse_nat k) rs), show_hooks 0 (2 * windows_spec (parse_nat k) rs))
+      else None
+  | _ => None
+  end.
+
+Definition dispatch0 (line : list N) : list N * list N :=
+  match dispatch_hooks (split_on 32 line) with Some r => r | None =>
+  match dispatch_hist (split_on 32 line) with Some r => r | None =>
   match dispatch_file (split_on 32 line) with Some r => r | None =>
   match split_on 32 line with
   | [op; a; b] =>
@@ -77,6 +127,7 @@ Definition dispatch (line : list N) : list N * list N :=
       else if is "rc" op then (m_rc (parse_nat a) (parse_dec b), s_rc (parse_nat a) (parse_dec b))
       else if is "dec" op then (m_dec (parse_nat a) (parse_dec b), s_dec (parse_nat a) (parse_dec b))
       else if is "cgr" op then (m_cgr (parse_Z a) (parse_hex b), s_cgr (parse_Z a) (parse_hex b))
+      else if is "cbatch" op then (m_cbatch (parse_Z a) (parse_hex_list b), s_cbatch (parse_Z a) (parse_hex_list b))
       else unknown
   | [op; a] =>
       if is "posmap" op then (m_posmap (parse_nat a), s_posmap (parse_nat a))
@@ -86,6 +137,7 @@ Definition dispatch (line : list N) : list N * list N :=
       if is "mg" op then (m_mg (parse_nat a) (parse_nat b) (parse_hex c), s_mg (parse_nat a) (parse_nat b) (parse_hex c))
       else if is "kmg" op then (m_kmg (parse_nat a) (parse_nat b) (parse_hex c), s_kmg (parse_nat a) (parse_nat b) (parse_hex c))
       else if is "oligo" op then (m_oligo (parse_nat a) (flag b) (parse_hex c), s_oligo (parse_nat a) (flag b) (parse_hex c))
+      else if is "obatch" op then (m_obatch (parse_nat a) (flag b) (parse_hex_list c), s_obatch (parse_nat a) (flag b) (parse_hex_list c))
       else unknown
   | [op; a; b; c; d] =>
       if is "ocgr" op then (m_ocgr (parse_nat a) (parse_Z b) (flag c) (parse_hex d), s_ocgr (parse_nat a) (parse_Z b) (flag c) (parse_hex d))
@@ -98,4 +150,14 @@ Definition dispatch (line : list N) : list N * list N :=
       else unknown
   | _ => unknown
   end
+  end
+  end
+  end.
+
+(* the Python binding is given the same case lines with the prefix "py:"; a Python str reaches the Rust code as
+   its UTF-8 bytes, which is what the case line carries, so the models are those of the core *)
+Definition dispatch (line : list N) : list N * list N :=
+  match line with
+  | 112 :: 121 :: 58 :: rest => dispatch0 rest
+  | _ => dispatch0 line
   end.
